@@ -307,16 +307,39 @@ Definition insert_fj_op (st : bstate) (f j : Z) : bstate :=
   mkb (b_first st) (b_nextw st) (b_cur st + dwd) (b_fj st ++ [f; j]) (b_wf st) (b_pads st) (b_dict st)
       (b_labels st) (b_wcount st) (b_wr st).
 
+(* _covers_input_bit (since commit 435c753): an op at this address would hold the input bit 3w + #w *)
+Definition covers_input_bit (a : Z) : bool :=
+  let ia := 3 * wd + Z.of_N ww + 1 in (a <=? ia) && (ia <? a + dwd).
+
+(* `while self.padding_ops_indices: index = pop(); if not covers: return spot`: the holes that hold the input bit are
+   dropped (they stay zero ops and are not reused) *)
+Fixpoint pop_hole (first : Z) (pads : list nat) : option (nat * Z) * list nat :=
+  match pads with
+  | [] => (None, [])
+  | i :: rest =>
+    let a := first + wd * Z.of_nat i in
+    if covers_input_bit a then pop_hole first rest else (Some (i, a), rest)
+  end.
+
+(* `while self._covers_input_bit(self.next_wflip_address): wflip_words += (0, 0); next_wflip_address += 2w`.
+   The loop body runs at most once (a <= ia < a + 2w fails for a + 2w); the fuel 2 is never exhausted. *)
+Fixpoint skip_input_op (fuel : nat) (nextw : Z) (wf : list Z) : Z * list Z :=
+  match fuel with
+  | O => (nextw, wf)
+  | S k => if covers_input_bit nextw then skip_input_op k (nextw + dwd) (wf ++ [0; 0]) else (nextw, wf)
+  end.
+
 (* get_wflip_spot: (list, index, address) *)
 Definition get_wflip_spot (st : bstate) : bstate * (wlist * nat * Z) :=
-  match b_pads st with
-  | i :: rest =>
+  match pop_hole (b_first st) (b_pads st) with
+  | (Some (i, a), rest) =>
     (mkb (b_first st) (b_nextw st) (b_cur st) (b_fj st) (b_wf st) rest (b_dict st) (b_labels st) (b_wcount st) (b_wr st),
-     (FJ, i, b_first st + wd * Z.of_nat i))
-  | [] =>
-    (mkb (b_first st) (b_nextw st + dwd) (b_cur st) (b_fj st) (b_wf st ++ [0; 0]) [] (b_dict st) (b_labels st)
+     (FJ, i, a))
+  | (None, _) =>
+    let '(nw, wf) := skip_input_op 2 (b_nextw st) (b_wf st) in
+    (mkb (b_first st) (nw + dwd) (b_cur st) (b_fj st) (wf ++ [0; 0]) [] (b_dict st) (b_labels st)
          (b_wcount st) (b_wr st),
-     (WF, List.length (b_wf st), b_nextw st))
+     (WF, List.length wf, nw))
   end.
 
 Definition insert_wflip_label (st : bstate) (addr : Z) : bstate :=
